@@ -21,6 +21,7 @@ macro_rules! props {
 props! {
     "C01" => props::c01::C01,
     "C02" => props::c02::C02,
+    "C03" => props::c03::C03,
     "C04" => props::c04::C04,
     "C07" => props::c07::C07,
     "C08" => props::c08::C08,
